@@ -72,6 +72,7 @@ def rt_rcer(f: Optional[bool], c: Optional[bool], fce: Optional[str], hints: Opt
     pre: (f is None) == (c is None)
     post: _
     """
+    xs.path_start()
     obj = RequirementConstraintEvaluationResult(requirement_constraints_fulfilled=f, requirement_is_conditional=c, format_constraints_expression=fce, hints=hints)
     got = roundtrip(RequirementConstraintEvaluationResultSchema(), obj)
     xs.reached()
@@ -85,6 +86,7 @@ def rt_fcer(ful: bool, msg: Optional[str], which: int) -> bool:
     pre: 0 <= which < 2
     post: _
     """
+    xs.path_start()
     which = xs.pick(which, 0, 2)
     if which == 0:
         obj, schema = FormatConstraintEvaluationResult(format_constraints_fulfilled=ful, error_message=msg), FormatConstraintEvaluationResultSchema()
@@ -102,6 +104,7 @@ def rt_ahb(ind: int, f: Optional[bool], hints: Optional[str], ful: bool, msg: Op
     pre: 0 <= ind < 6
     post: _
     """
+    xs.path_start()
     ind = xs.pick(ind, 0, 6)
     obj = AhbExpressionEvaluationResult(
         requirement_indicator=INDICATORS[ind],
@@ -138,6 +141,7 @@ def rt_cke(idx: int) -> bool:
     pre: 0 <= idx < len(cke_cases())
     post: _
     """
+    xs.path_start()
     idx = xs.pick(idx, 0, len(cke_cases()))
     kind, src, sanitize = cke_cases()[idx]
     with xs.nt():
@@ -160,6 +164,7 @@ def rt_cer(s1: int, s2: int, h1: Optional[str], f1: bool, m1: Optional[str], pk:
     pre: (FIXCER[0] < 0 or s1 == FIXCER[0]) and (FIXCER[1] < 0 or pk == FIXCER[1]) and 0 <= s1 < 4 and 0 <= s2 < 4 and 0 <= pk < 3
     post: _
     """
+    xs.path_start()
     s1, s2, pk = xs.pick(s1, 0, 4), xs.pick(s2, 0, 4), xs.pick(pk, 0, 3)
     states = (CFV.FULFILLED, CFV.UNFULFILLED, CFV.UNKNOWN, CFV.NEUTRAL)
     obj = ContentEvaluationResult(
@@ -208,6 +213,7 @@ def rt_tree(idx: int, s1: int, s2: int) -> bool:
     pre: LO <= idx < HI and 0 <= s1 < 3 and 0 <= s2 < 3
     post: _
     """
+    xs.path_start()
     idx = xs.pick(idx, LO, HI)
     with xs.nt():
         kind, text = tree_cases()[idx]
